@@ -8,6 +8,7 @@
      reset                         a new log starts (time 0, nothing outstanding)
      req / inreq                   ScheduleWakeAt(t) from outside / inside the processor
      notify_recv / notify_free     a notification delivered at time at (t = at)
+     in_notify_recv / in_notify_free   the same, delivered while the processor is running
      run                           the processor was invoked at time at
      end                           the engine ran out of events
    Every entry is one step.  Invariants:
@@ -24,7 +25,7 @@ Trace == ndJsonDeserialize(IOEnv.TRACE_FILE)
 VARIABLES i, now, due, wf
 vars == <<i, now, due, wf>>
 
-Requests == {"req", "inreq", "notify_recv", "notify_free"}
+Requests == {"req", "inreq", "notify_recv", "notify_free", "in_notify_recv", "in_notify_free"}
 
 Init == i = 1 /\ now = 0 /\ due = {} /\ wf = TRUE
 
